@@ -343,13 +343,14 @@ impl<Payload: for<'de> Deserialize<'de>> JWT<Payload> {
             .ok_or_else(Response::Unauthorized)?;
         let payload: Payload = part_value(payload_part)?;
         let now = crate::util::unix_timestamp();
-        if payload.get("nbf").is_some_and(|nbf| nbf.as_u64().unwrap_or(0) > now) {
+        /* NumericDate is a JSON number that can be negative or non-integer; anything else is malformed */
+        if payload.get("nbf").is_some_and(|nbf| nbf.as_f64().is_none_or(|nbf| nbf > now as f64)) {
             return Err(Response::Unauthorized().with_text(UNAUTHORIZED_MESSAGE))
         }
-        if payload.get("exp").is_some_and(|exp| exp.as_u64().unwrap_or(u64::MAX) <= now) {
+        if payload.get("exp").is_some_and(|exp| exp.as_f64().is_none_or(|exp| exp <= now as f64)) {
             return Err(Response::Unauthorized().with_text(UNAUTHORIZED_MESSAGE))
         }
-        if payload.get("iat").is_some_and(|iat| iat.as_u64().unwrap_or(0) > now) {
+        if payload.get("iat").is_some_and(|iat| iat.as_f64().is_none_or(|iat| iat > now as f64)) {
             return Err(Response::Unauthorized().with_text(UNAUTHORIZED_MESSAGE))
         }
 
